@@ -1296,7 +1296,20 @@ ares_status_t ares_send_query(ares_server_t *requested_server,
      * error codes */
     case ARES_ECONNREFUSED:
     case ARES_EBADFAMILY:
-      handle_conn_error(conn, ARES_TRUE, status);
+      {
+        unsigned short qid = query->qid;
+
+        handle_conn_error(conn, ARES_TRUE, status);
+
+        /* Tearing down the connection completes or requeues the other
+         * queries on it, and their callbacks may cancel (and thereby free)
+         * the query we are sending.  Look it up again rather than trusting
+         * the pointer. */
+        if (ares_htable_szvp_get_direct(channel->queries_by_qid, qid) !=
+            query) {
+          return ARES_ECANCELLED;
+        }
+      }
       status = ares_requeue_query(query, now, status, ARES_TRUE, NULL, NULL);
       if (status == ARES_ETIMEOUT) {
         status = ARES_ECONNREFUSED;
